@@ -113,7 +113,7 @@ impl Subject for SelectStatement {
 
 impl Subject for WindowStatement {
     const NAME: &'static str = "WindowStatement";
-    const FRESH_AFTER_TAKE: bool = false;
+    const FRESH_AFTER_TAKE: bool = true;
     fn fresh() -> Self {
         WindowStatement::new()
     }
@@ -252,7 +252,26 @@ fn scope_t1() -> Vec<crate::gen::Rel> {
 fn select_call(rng: &mut Rng) -> Call<SelectStatement> {
     let scope = scope_t1();
     let mut g = Gen::new(rng, Cfg::text(Dialect::Postgres));
-    match g.rng.below(22) {
+    match g.rng.below(25) {
+        // condition groups without members: they render nothing (or a constant) but are state all the same
+        22 => {
+            let neg = g.rng.coin();
+            call("where", if neg { "cond_where(!all[])" } else { "cond_where(all[])" }, move |s: &mut SelectStatement| {
+                s.cond_where(if neg { Cond::all().not() } else { Cond::all() });
+            })
+        }
+        23 => {
+            let any = g.rng.coin();
+            call("having", if any { "cond_having(any[])" } else { "cond_having(all[])" }, move |s: &mut SelectStatement| {
+                s.cond_having(if any { Cond::any() } else { Cond::all() });
+            })
+        }
+        24 => {
+            let c = g.boolean(&scope, 1).build();
+            call("having", "cond_having(!all[c])", move |s: &mut SelectStatement| {
+                s.cond_having(Cond::all().add(c.clone()).not());
+            })
+        }
         0 | 1 => {
             let e = g.scalar(&scope, K::I, 2).build();
             call("selects", "expr", move |s: &mut SelectStatement| {
@@ -657,7 +676,22 @@ fn table_truncate_call(rng: &mut Rng) -> Call<TableTruncateStatement> {
 }
 
 fn index_create_call(rng: &mut Rng) -> Call<IndexCreateStatement> {
-    match rng.below(7) {
+    match rng.below(10) {
+        7 | 8 => {
+            let c = *rng.pick(&["c1", "c2"]);
+            let k = rng.below(9) as i32;
+            let via_cond = rng.coin();
+            call("where", format!("and_where({c} > {k})"), move |s: &mut IndexCreateStatement| {
+                if via_cond {
+                    s.cond_where(Expr::col(a(c)).gt(k));
+                } else {
+                    s.and_where(Expr::col(a(c)).gt(k));
+                }
+            })
+        }
+        9 => call("flag", "nulls_not_distinct/include", |s: &mut IndexCreateStatement| {
+            s.nulls_not_distinct().include(a("c3"));
+        }),
         0 => call("name", "name", |s: &mut IndexCreateStatement| {
             s.name("ix");
         }),
